@@ -90,6 +90,17 @@ class Leaf:
         return '%s%s' % (self.kind.capitalize(), ''.join(str(i) for i in self.path))
 
 
+class StopLeaf:
+    def __init__(self, path):
+        self.path = tuple(path)
+
+    def glomit(self, target, scope):
+        return glom.STOP
+
+    def __repr__(self):
+        return 'Stop%s' % ''.join(str(i) for i in self.path)
+
+
 PROBE_TARGET = {'p': 'A'}
 
 
@@ -262,6 +273,11 @@ def build(tree, run, path=(), index=None):
         s = Spec(child(0), scope={a: BVal(path)})
     elif k in ('auto', 'fill', 'match'):
         s = {'auto': Auto, 'fill': Fill, 'match': Match}[k](child(0))
+    elif k == 'group':
+        from glom.grouping import Group
+        s = Group(child(0))
+    elif k == 'stop':
+        s = StopLeaf(path)
     elif k == 'pipe':
         s = Pipe(*[child(i) for i in range(len(c))])
     elif k == 'tup':
